@@ -337,8 +337,13 @@ def declare_xn(fn, kw, name, salt=""):
     short = {k: v for k, v in kw.items() if not (k in dflt and v == dflt[k])}
     if len(short) < len(kw):
         DECL_FORMS["options_left_to_process_defaults"] += 1
-    form = _form(name, salt, 4)
+    form = _form(name, salt, 5)
     DECL_FORMS["xn_form_%d" % form] += 1
+    if form == 4:
+        # a functools.partial as node function (supported: the node is named after the wrapped function)
+        import functools
+
+        return xn(**kw)(functools.partial(fn))
     if form == 0:
         return xn(**kw)(fn)
     if form == 1:
